@@ -15,7 +15,7 @@ specification:
   tu_nonid    ToUnicode + non-identity CMap (TAGGED: known finding)
   ttf         Adobe-Identity + embedded TrueType 'cmap' (vf/gen/ttf07.py)
   adv_h/adv_v W/DW and W2/DW2 arrays, pen movement, vertical position vector
-  vdef        vertical default position vector with a non-default DW (TAGGED)
+  vdef        vertical default position vector (w0/2 from W/DW) — own family, tag kept for classification
 
 CMapDB.get_cmap(name).decode and CMapDB.get_unicode_map(...).get_unichr are also
 called directly for the predefined and identity CMaps.
@@ -42,10 +42,17 @@ RULE = (
     "one case = one generated single-font document. ident: random byte strings (empty/odd/even, literal and hex) "
     "under 8 identity encodings; tounicode: random ToUnicode programs (bfchar, bfrange increment/array, 1-6 blocks, "
     "3 header forms, usecmap, 7 spelling bits) with every mapped code shown; cjk_*: 16 legacy + 32 Unicode-encoded "
-    "predefined CMaps, text = kana/hangul/unified ideographs of the stdlib codec's set (exhaustive in thorough, sampled "
-    "in quick) plus ASCII alphanumerics and half-width kana as 1-byte mix-ins; ttf: random format 0/4 cmap tables; "
-    "adv_*: random W/DW/W2/DW2 arrays in both syntaxes with agreeing overlaps and indirect elements. "
-    "distinct = distinct case descriptions; non-trivial = at least one glyph expected."
+    "predefined CMaps, text = kana/hangul/unified ideographs of the stdlib codec's set (exhaustive in thorough; all kana "
+    "and a seeded sample of hangul/ideographs in quick) plus ASCII alphanumerics as 1-byte mix-ins; ttf: random format "
+    "0/4 cmap tables; adv_*: random W/DW/W2/DW2 arrays in both syntaxes with agreeing overlaps and indirect elements. "
+    "distinct = distinct case descriptions; non-trivial = at least one glyph expected. "
+    "Left out as undefined/ambiguous: bfrange whose last destination byte would overflow (9.10.3), destinations that are "
+    "not UTF-16BE (odd length, lone surrogates), a source code defined twice, conflicting overlapping W/W2 entries, "
+    "kana under the Big5 legacy CMaps and every vendor extension outside shift_jis/euc_jp(2-byte)/gb2312/gbk/big5/"
+    "cp949/euc_kr, CID 0 and glyphs reached from several characters in TrueType cmaps, CIDToGIDMap streams, "
+    "non-trivial text state (Tc/Tw/Tz/Ts/CTM: C05), the y-extent of vertical glyph boxes; a partial trailing code may be "
+    "dropped or shown as one notdef glyph; ToUnicode+non-identity CMap and (historically) the vertical default "
+    "position vector are generated only as tagged families."
 )
 LEVEL_TEXT = (
     "Randomised and (for the CJK character sets) exhaustive exploration: each generated font is decoded by pdfminer and "
@@ -1319,12 +1326,23 @@ def gen_adv(rng: random.Random, vertical: bool) -> Dict[str, Any]:
 
 
 def gen_vdef(rng: random.Random) -> Dict[str, Any]:
-    """Vertical identity font whose *horizontal* widths are not 1000; glyphs without W2 entry (TAGGED)."""
+    """Vertical identity font whose *horizontal* widths (W/DW) are not all 1000, shown glyphs mostly without W2
+    entry: default position vector (w0/2, DW2[0]).  Kept as its own family (see TAG_VDEF)."""
     case: Dict[str, Any] = {"fam": "vdef", "cmap": "Identity-V", "enc_form": "name", "nbytes": 2, "vertical": True,
-                            "cidsub": "CIDFontType2", "fs": rng.choice([8, 10, 16]),
-                            "DW": rng.choice([500, 600, 250, 2000])}
+                            "cidsub": "CIDFontType2", "fs": rng.choice([8, 10, 16, "7.25"])}
     cids = [rng.randrange(1, 65536) for _ in range(rng.randint(1, 8))]
-    case["lines"] = [{"tm": [1, 0, 0, 1, 100, 700], "shows": [["Tj", b"".join(c.to_bytes(2, "big") for c in cids), 1]]}]
+    if rng.random() < 0.8:
+        case["DW"] = rng.choice([500, 600, 250, 2000, "437.5"])
+    if rng.random() < 0.6 or "DW" not in case:
+        case["W"], wc = gen_w(rng)
+        cids += wc[:24]
+    if rng.random() < 0.3:
+        case["W2"], w2c = gen_w2(rng)
+        cids += w2c[:8]
+    if rng.random() < 0.3:
+        case["DW2"] = [rng.choice([880, 700]), rng.choice([-1000, -800])]
+    rng.shuffle(cids)
+    case["lines"] = _chunk_codes(rng, cids, 2, per_line=12)
     return case
 
 
@@ -1337,24 +1355,29 @@ WITNESS_VDEF = {"fam": "vdef", "cmap": "Identity-V", "enc_form": "name", "nbytes
 # --------------------------------------------------------------------------
 def minimums(tier: str) -> Dict[str, int]:
     if tier == "quick":
-        return {"evaluations": 2500, "distinct": 2300, "glyphs_compared": 80000,
-                "cases:ident": 300, "cases:tounicode": 300, "cases:cjk_legacy": 200, "cases:cjk_unicode": 400,
-                "cases:ttf": 200, "cases:adv_h": 200, "cases:adv_v": 200, "cases:tu_nonid": 20, "cases:vdef": 10,
-                "ident_odd_strings": 50, "tu_entries:bfchar": 500, "tu_entries:bfrange_inc": 300,
-                "tu_entries:bfrange_arr": 200, "tu_src_carry_ranges": 50, "tu_surrogate_targets": 100,
-                "tu_multichar_targets": 100, "ttf_fmt4_array_zero_entries": 50, "w_indirect_items": 30,
-                "w2_indirect_items": 30, "w_overlap_items": 20, "api_cjk_chars": 20000,
-                "seen:cjk_cmaps": 48, "seen:ident_kinds": 8, "seen:tu_headers": 3, "seen:ttf_layouts": 6,
-                "class:kana": 1000, "class:hangul": 1000, "class:ideograph": 10000}
-    return {"evaluations": 30000, "distinct": 28000, "glyphs_compared": 1500000,
-            "cases:ident": 3000, "cases:tounicode": 3000, "cases:cjk_legacy": 3000, "cases:cjk_unicode": 7000,
-            "cases:ttf": 2000, "cases:adv_h": 2000, "cases:adv_v": 2000, "cases:tu_nonid": 100, "cases:vdef": 50,
-            "ident_odd_strings": 500, "tu_entries:bfchar": 5000, "tu_entries:bfrange_inc": 3000,
-            "tu_entries:bfrange_arr": 2000, "tu_src_carry_ranges": 500, "tu_surrogate_targets": 1000,
-            "tu_multichar_targets": 1000, "ttf_fmt4_array_zero_entries": 500, "w_indirect_items": 300,
-            "w2_indirect_items": 300, "w_overlap_items": 200, "api_cjk_chars": 600000, "cjk_exhaustive_chars": 600000,
-            "seen:cjk_cmaps": 48, "seen:ident_kinds": 8, "seen:tu_headers": 3, "seen:ttf_layouts": 6,
-            "class:kana": 5000, "class:hangul": 50000, "class:ideograph": 500000}
+        return {"evaluations": 3500, "distinct": 3300, "glyphs_compared": 250000,
+                "cases:ident": 600, "cases:tounicode": 800, "cases:cjk_legacy": 300, "cases:cjk_unicode": 600,
+                "cases:ttf": 500, "cases:adv_h": 500, "cases:adv_v": 500, "cases:tu_nonid": 60, "cases:vdef": 30,
+                "ident_odd_strings": 200, "ident_empty_strings": 300, "tu_entries:bfchar": 3500,
+                "tu_entries:bfrange_inc": 2500, "tu_entries:bfrange_arr": 1800, "tu_src_carry_ranges": 700,
+                "tu_surrogate_targets": 5000, "tu_multichar_targets": 3500, "tu_usecmap_programs": 30,
+                "ttf_fmt4_array_segments": 350, "ttf_fmt4_array_zero_entries": 2500, "ttf_fmt0_tables": 180,
+                "w_indirect_items": 300, "w2_indirect_items": 300, "w_overlap_items": 150, "w2_overlap_items": 80,
+                "dw_given": 150, "dw2_given": 200, "api_cjk_chars": 50000, "cjk_mixed_cases": 500,
+                "seen:cjk_cmaps": 48, "seen:ident_kinds": 8, "seen:tu_headers": 3, "seen:ttf_layouts": 10,
+                "class:kana": 6000, "class:hangul": 3500, "class:ideograph": 25000}
+    return {"evaluations": 60000, "distinct": 58000, "glyphs_compared": 5000000,
+            "cases:ident": 12000, "cases:tounicode": 15000, "cases:cjk_legacy": 3500, "cases:cjk_unicode": 8000,
+            "cases:ttf": 9000, "cases:adv_h": 9000, "cases:adv_v": 9000, "cases:tu_nonid": 400, "cases:vdef": 200,
+            "ident_odd_strings": 7000, "ident_empty_strings": 9000, "tu_entries:bfchar": 100000,
+            "tu_entries:bfrange_inc": 80000, "tu_entries:bfrange_arr": 55000, "tu_src_carry_ranges": 25000,
+            "tu_surrogate_targets": 160000, "tu_multichar_targets": 110000, "tu_usecmap_programs": 1000,
+            "ttf_fmt4_array_segments": 9000, "ttf_fmt4_array_zero_entries": 70000, "ttf_fmt0_tables": 5000,
+            "w_indirect_items": 8000, "w2_indirect_items": 8000, "w_overlap_items": 5000, "w2_overlap_items": 2800,
+            "dw_given": 4500, "dw2_given": 6000, "api_cjk_chars": 800000, "cjk_mixed_cases": 7000,
+            # the exhaustive part is deterministic: the sizes of the codec-defined domains summed over the 48 CMaps
+            "cjk_exhaustive_chars": 636000, "class:kana": 8000, "class:hangul": 117000, "class:ideograph": 510000,
+            "seen:cjk_cmaps": 48, "seen:ident_kinds": 8, "seen:tu_headers": 3, "seen:ttf_layouts": 10}
 
 
 def shards(tier: str, seed: int) -> List[Dict[str, Any]]:
@@ -1362,32 +1385,33 @@ def shards(tier: str, seed: int) -> List[Dict[str, Any]]:
     cms = cjk_cmaps()
     if tier == "quick":
         for k in range(4):
-            out.append({"kind": "rand", "fam": "ident", "n": 110, "sub": k})
+            out.append({"kind": "rand", "fam": "ident", "n": 160, "sub": k})
         for k in range(6):
-            out.append({"kind": "rand", "fam": "tounicode", "n": 90, "sub": 100 + k})
-        for k in range(3):
-            out.append({"kind": "rand", "fam": "ttf", "n": 110, "sub": 200 + k})
-        for k in range(3):
-            out.append({"kind": "rand", "fam": "adv_h", "n": 110, "sub": 300 + k})
-        for k in range(3):
-            out.append({"kind": "rand", "fam": "adv_v", "n": 110, "sub": 400 + k})
-        out.append({"kind": "rand", "fam": "tagged", "n": 60, "sub": 500})
+            out.append({"kind": "rand", "fam": "tounicode", "n": 150, "sub": 100 + k})
+        for k in range(4):
+            out.append({"kind": "rand", "fam": "ttf", "n": 140, "sub": 200 + k})
+        for k in range(4):
+            out.append({"kind": "rand", "fam": "adv_h", "n": 140, "sub": 300 + k})
+        for k in range(4):
+            out.append({"kind": "rand", "fam": "adv_v", "n": 140, "sub": 400 + k})
+        out.append({"kind": "rand", "fam": "tagged", "n": 120, "sub": 500})
         for k in range(0, len(cms), 4):
-            out.append({"kind": "cjk", "cmaps": list(range(k, min(k + 4, len(cms)))), "sample": 1100, "mixed": 8, "sub": 600 + k})
+            out.append({"kind": "cjk", "cmaps": list(range(k, min(k + 4, len(cms)))), "sample": 400, "mixed": 12, "sub": 600 + k})
         return out
     for k in range(16):
-        out.append({"kind": "rand", "fam": "ident", "n": 300, "sub": k})
-    for k in range(24):
-        out.append({"kind": "rand", "fam": "tounicode", "n": 220, "sub": 100 + k})
-    for k in range(12):
-        out.append({"kind": "rand", "fam": "ttf", "n": 260, "sub": 200 + k})
-    for k in range(12):
-        out.append({"kind": "rand", "fam": "adv_h", "n": 260, "sub": 300 + k})
-    for k in range(12):
-        out.append({"kind": "rand", "fam": "adv_v", "n": 260, "sub": 400 + k})
-    out.append({"kind": "rand", "fam": "tagged", "n": 300, "sub": 500})
+        out.append({"kind": "rand", "fam": "ident", "n": 1000, "sub": k})
+    for k in range(32):
+        out.append({"kind": "rand", "fam": "tounicode", "n": 600, "sub": 100 + k})
+    for k in range(16):
+        out.append({"kind": "rand", "fam": "ttf", "n": 700, "sub": 200 + k})
+    for k in range(16):
+        out.append({"kind": "rand", "fam": "adv_h", "n": 700, "sub": 300 + k})
+    for k in range(16):
+        out.append({"kind": "rand", "fam": "adv_v", "n": 700, "sub": 400 + k})
+    for k in range(2):
+        out.append({"kind": "rand", "fam": "tagged", "n": 450, "sub": 500 + k})
     for k in range(len(cms)):
-        out.append({"kind": "cjk", "cmaps": [k], "sample": 0, "mixed": 40, "sub": 600 + k})
+        out.append({"kind": "cjk", "cmaps": [k], "sample": 0, "mixed": 150, "sub": 600 + k})
     return out
 
 
@@ -1504,15 +1528,22 @@ def run_shard(spec: Dict[str, Any], rec) -> None:
         dom = domain(cm["dom"], tuple(cm["classes"]))
         rec.see("cjk_cmaps", cm["cmap"])
         rec.count("domain_chars:%s" % cm["cmap"], len(dom))
+        classes = dict(classed_chars())
         if spec["sample"]:
-            # quick: a seeded sample of the domain, kept in code order, always with both ends
-            n = min(spec["sample"], len(dom))
-            picked = sorted(set(rng.sample(range(len(dom)), n)) | {0, len(dom) - 1})
-            chars = [dom[i] for i in picked]
+            # quick: every kana of the domain and a seeded sample of the hangul and of the ideographs
+            # (each with both ends of its range), kept in code order
+            by: Dict[str, List[str]] = {}
+            for ch in dom:
+                by.setdefault(classes[ch], []).append(ch)
+            chars = []
+            for k in sorted(by):
+                pool = by[k]
+                n = len(pool) if k == "kana" else min(len(pool), spec["sample"] * (2 if k == "ideograph" else 1))
+                picked = sorted(set(rng.sample(range(len(pool)), n)) | {0, len(pool) - 1})
+                chars += [pool[i] for i in picked]
         else:
             chars = dom
             rec.count("cjk_exhaustive_chars", len(chars))
-        classes = dict(classed_chars())
         for i in range(0, len(chars), 96):
             chunk = "".join(chars[i:i + 96])
             for ch in chunk:
